@@ -308,7 +308,8 @@ def run_history(roots: list, ops: list, numeric: bool = False) -> dict:  # noqa:
             inverse_kin = {}
             for k in root.kinematic_variables:
                 inverse_kin[cmap.get(k.name, k.name)] = kin_value(k.name)
-            kin_root = {k.name: kin_value(k.name) for k in root.kinematic_variables}
+            # a root variable takes the value of its image (two variables renamed to one name are one variable)
+            kin_root = {k.name: inverse_kin[cmap.get(k.name, k.name)] for k in root.kinematic_variables}
             # symbols of the expression that are neither (zeta angles defined via kinematic variables etc.)
             root_values = {p: actual.get(cmap.get(p.name, p.name)) for p in root.parameter_defaults}
             lost = sorted(p.name for p, v in root_values.items() if v is None)
@@ -443,6 +444,17 @@ def run_history(roots: list, ops: list, numeric: bool = False) -> dict:  # noqa:
                 images[image] = images.get(image, 0) + 1
             if any(n > 1 for n in images.values()):
                 merged_now = True
+            # whatever the kind: symbols with different assumptions that end up under one name stay two
+            # symbols that share a name (a collision); lookups by name are ambiguous from then on
+            shared_before: dict[str, set] = {}
+            shared_after: dict[str, set] = {}
+            for sym in all_symbols(model):
+                assumptions = tuple(sorted(sym.assumptions0.items()))
+                shared_before.setdefault(sym.name, set()).add(assumptions)
+                shared_after.setdefault(renames.get(sym.name, sym.name), set()).add(assumptions)
+            if sum(len(v) > 1 for v in shared_after.values()) > sum(len(v) > 1 for v in shared_before.values()):
+                collided_now = True
+                probes["collision_generic"] = probes.get("collision_generic", 0) + 1
             if form == "shared":
                 names_now = {s_.name: s_ for s_ in all_symbols(model)}
                 for a_, b_ in renames.items():
